@@ -490,6 +490,40 @@ def run(ck, facts, tier):
             else:
                 ck.violation(R, "generalize_ty:Function", gt.where(arm["ln"]), "fn pointer components generalized at %s" % vs)
 
+    # ------------------------------------------------------------------ SIBLING-RESOLVENT
+    R = "C29.SIBLING-RESOLVENT"
+    ck.rule(R, "K5: AnswerSubstitutor::zip_tys - the zipper that applies a tabled answer to the literal that selected it, at the variance "
+               "of that literal - relates every component of every constructor at the variance the unifier's relate_ty_ty uses (spec "
+               "table POSITIONS), or invariantly where the unifier uses a declared / covariant parameter list (asking for equality is "
+               "more than subtyping needs, never less): a component related at a weaker variance here lets an answer through that the "
+               "unifier would refuse")
+    zkeys = [k_ for k_ in facts.bodies("chalk_engine") if k_.endswith("Zipper>::zip_tys") and "AnswerSubstitutor" in k_ and "{" not in k_]
+    if not zkeys:
+        ck.violation(R, "missing-anchor:AnswerSubstitutor::zip_tys", "", "the answer zipper was not found")
+    else:
+        zb = facts.body(zkeys[0])
+        zms = pair_match(facts.thir(zb.key), "chalk_ir::TyKind")
+        if len(zms) != 1:
+            ck.violation(R, "zip_tys:match", zb.where(), "expected one pair match")
+        else:
+            nz = 0
+            for k in facts.variants("chalk_ir::TyKind"):
+                if k in ("InferenceVar", "Alias", "Error", "BoundVar") or k not in POSITIONS:
+                    continue
+                arms = select_arms(zms[0], T(V(k), V(k)))
+                if not arms:
+                    continue
+                nz += 1
+                arm = zms[0]["arms"][arms[0][0]]
+                got = sorted(zip_calls(arm["body"], side_vars(arm["pat"])))
+                want = sorted(POSITIONS[k])
+                stricter = [(c_, "amb;None") if c_ == "substs" else (c_, v_) for c_, v_ in want]
+                if got == want or got == sorted(stricter):
+                    ck.ok(R, "zip_tys:%s" % k, str(got))
+                else:
+                    ck.violation(R, "zip_tys:%s" % k, zb.where(arm["ln"]), "components are related as %s, the unifier relates them as %s" % (got, want))
+            ck.floor(R, "constructors", nz, 17)
+
     # ------------------------------------------------------------------ BOTH-VARS
     R = "C29.BOTH-VARS"
     ck.rule(R, "K1 sibling: a SubtypeGoal between two general inference variables is refused by both engines "
